@@ -807,7 +807,9 @@ func init() {
 					for _, n := range p.Nodes {
 						for _, ins := range n.Instrs {
 							if st, isS := ins.(*ssa.Store); isS {
-								if fa, isF := st.Addr.(*ssa.FieldAddr); isF && fieldElem(fa.X.Type(), fa.Field) == "Url:validationErrors" && h.isURL(fa.X, func(nn *fnode) func(ssa.Value) ssa.Value { return func(v ssa.Value) ssa.Value { return p.Resolve(nn, v) } }(n)) {
+								if fa, isF := st.Addr.(*ssa.FieldAddr); isF && fieldElem(fa.X.Type(), fa.Field) == "Url:validationErrors" && h.isURL(fa.X, func(nn *fnode) func(ssa.Value) ssa.Value {
+									return func(v ssa.Value) ssa.Value { return p.Resolve(nn, v) }
+								}(n)) {
 									// value must be append(load same field, e)
 									if call, isCall := st.Val.(*ssa.Call); isCall {
 										if bi, isB := call.Common().Value.(*ssa.Builtin); isB && bi.Name() == "append" {
